@@ -283,17 +283,33 @@ class OpcodeNode(NodeProtocol):
         return f"OpcodeNode({self.opcode}, {self.addressing_mode}, {self.index}, {self.value_node})"
 
 
+def _check_resolved_position(directive: str, resolved: int | None, position: int, value_node: ValueNodeProtocol) -> None:
+    if resolved is not None and resolved != position:
+        # labels were placed from another position: failing beats silently misplaced code.
+        raise NodeError(
+            f"{directive} position changed after labels were resolved ({resolved:#x} then {position:#x}).",
+            getattr(value_node, "file_info", None),  # type: ignore[arg-type]
+        )
+
+
 class CodePositionNode(NodeProtocol):
     def __init__(self, value_node: ValueNodeProtocol, resolver: Resolver):
         self.value_node = value_node
         self.resolver: Resolver = resolver
+        self.resolved_position: int | None = None
 
     def pc_after(self, current_pc: Address) -> Address:
         self.resolver.reloc = False
-        return self.resolver.get_bus().get_address(self.value_node.get_value())
+        position = self.value_node.get_value()
+        if self.resolved_position is None:
+            # the first traversal is the one that gives labels their addresses.
+            self.resolved_position = position
+        return self.resolver.get_bus().get_address(position)
 
     def emit(self, current_addr: Address) -> bytes:
-        self.resolver.set_position(self.value_node.get_value())
+        position = self.value_node.get_value()
+        _check_resolved_position("*=", self.resolved_position, position, self.value_node)
+        self.resolver.set_position(position)
         return b""
 
     def __str__(self) -> str:
@@ -304,13 +320,19 @@ class RelocationAddressNode(NodeProtocol):
     def __init__(self, pc_value_node: ValueNodeProtocol, resolver: Resolver) -> None:
         self.pc_value_node = pc_value_node
         self.resolver = resolver
+        self.resolved_position: int | None = None
 
     def pc_after(self, current_pc: Address) -> Address:
         self.resolver.reloc = True
-        return self.resolver.get_bus().get_address(self.pc_value_node.get_value())
+        position = self.pc_value_node.get_value()
+        if self.resolved_position is None:
+            self.resolved_position = position
+        return self.resolver.get_bus().get_address(position)
 
     def emit(self, current_addr: Address) -> bytes:
-        self.resolver.set_position(self.pc_value_node.get_value())
+        position = self.pc_value_node.get_value()
+        _check_resolved_position("@=", self.resolved_position, position, self.pc_value_node)
+        self.resolver.set_position(position)
         # self.resolver.set_position(self.pc_value_node.get_value(), reloc=True)
         return b""
 
